@@ -16,7 +16,7 @@ pub struct C14;
 
 /// must vanish outside classes / must never vanish
 const WS: [char; 4] = ['\t', '\n', '\r', ' '];
-const NOT_WS: [char; 6] = ['\u{b}', '\u{c}', '\u{a0}', '\u{2003}', '\u{120}', '\u{2009}'];
+const NOT_WS: [char; 7] = ['\u{b}', '\u{c}', '\u{a0}', '\u{2003}', '\u{120}', '\u{2009}', '#'];
 
 fn space_for(tier: Tier) -> (Space, usize) {
     let mut s = Space::new();
@@ -191,7 +191,7 @@ impl Check for C14 {
                   }
                 }
             }
-            out.sample(J::obj(vec![("pattern", J::s(text)), ("gap_sets", J::i(gapsets.len())), ("inserted", J::s("TAB LF CR SP U+000B U+000C U+00A0 U+2003 U+0120 U+2009"))]));
+            out.sample(J::obj(vec![("pattern", J::s(text)), ("gap_sets", J::i(gapsets.len())), ("inserted", J::s("TAB LF CR SP U+000B U+000C U+00A0 U+2003 U+0120 U+2009 #"))]));
         });
     }
 }
